@@ -101,6 +101,17 @@ CHECKS.update({
           "DESIGN.md section 5, C14"),
 })
 
+CHECKS.update({
+ "C12": E("offline history checker over complete planner outputs (flag grammar, pose order, linearity, transition cost, collisions, limits, start) with SpyKinematics inside KinematicsWithShape and in-repo hook events (strategy start, RRT gap closing); schedule stress over rayon pools x injected spy delays",
+          "Exploration: 220 / 6e3 plans over synthetic cells with strokes generated from joint-space seeds (free / grazing / blocking obstacles, start = landing solution or other posture, both interpolation settings, recursion depths 0..8) and 12 / 300 deterministic scenarios x 12 schedules each.",
+          "Trusted base: reference FK of the cell (base*chain*tool), the same robot's collides(). thread_rng makes RRT parts unrepeatable: plans are re-checked from their recorded output.",
+          "DESIGN.md section 5, C12"),
+ "C13": E("offline history checker over returned RRT paths plus SpyKinematics log (provenance of every interior node as a collision query; no sampling event after a cancellation raised by the spy at the k-th query)",
+          "Exploration: 400 / 1e4 scenes x 4 plans each (free, obstacle on the straight line, goal within one step, tiny budget, narrow limits, goal a full turn away) and 150 / 6e3 scenes x 4 cancellation experiments.",
+          "Trusted base: the same robot's collides(); SpyKinematics forwards calls unchanged. Outcomes of the internal RNG are sampled by repetition.",
+          "DESIGN.md section 5, C13"),
+})
+
 def main():
     props = [json.loads(l) for l in open('/verif/properties.jsonl')]
     hooks_commits = subprocess.run(['git','-C','/repo','log','--format=%H %s'],capture_output=True,text=True).stdout.splitlines()
